@@ -4,6 +4,7 @@ import (
 	"encoding/binary"
 	"errors"
 	"fmt"
+	"github.com/lesismal/nbio"
 	"math/rand"
 	"net"
 	"net/http"
@@ -133,6 +134,31 @@ func (e *env) wmode(rec *connRec) string {
 		return "sendq"
 	}
 	return "direct"
+}
+
+// serverState describes the server's end of a client's connection for a
+// violation report: is the close frame still unread in the kernel, or was it
+// consumed without the connection being closed?
+func (e *env) serverState(clientLocal string) string {
+	v, ok := e.recs.Load(clientLocal)
+	if !ok {
+		return "no server-side record for this client"
+	}
+	rec := v.(*connRec)
+	if rec.wsc == nil {
+		return "no websocket.Conn recorded"
+	}
+	var under net.Conn = rec.wsc.Conn
+	if hc, ok := under.(*nbhttp.Conn); ok {
+		under = hc.Conn
+	}
+	st := fmt.Sprintf("underlying %T, callbacks: open exit t=%d, %d messages delivered, close calls %d", under, atomic.LoadInt64(&rec.openExit), atomic.LoadInt64(&rec.msgRan), atomic.LoadInt32(&rec.closeCalls))
+	if nc, ok := under.(*nbio.Conn); ok {
+		cl, _ := nc.IsClosed()
+		q, err := outb.InQ(nc.Hash())
+		st += fmt.Sprintf("; nbio.Conn fd %d IsClosed=%v FIONREAD=%d (%v) pending read events=%d queued jobs=%d", nc.Hash(), cl, q, err, nbio.VerifReadEvents(nc), nbio.VerifJobs(nc))
+	}
+	return st
 }
 
 func (e *env) onOpen(c *websocket.Conn) {
